@@ -64,11 +64,26 @@ def geometry_inputs(K="vec", baseline="vec", ub="finite", lb="nonneg", Brank=2, 
 def membership_frames(rep, res, entry, rule="R-QTY"):
     """both operands of every membership test are in the same frame and unit (same offset removed from both)"""
     n = 0
+    # membership is decided in ALL capture coordinates: no selection along the receptor axis of vertices / targets
+    seen = set()
+    for ev in res.events("axis_subset"):
+        if ev.d["axis"] not in (("F",), ("Fr",)) or ev.fn.module.name not in (CONVEX, EST.split(":")[0]):
+            continue
+        bd = ev.d["base"].flat().data
+        if not ({"A", "B", "self.A"} & {o.split("|")[0] for o in bd}) or (ev.loc, ev.text()) in seen:
+            continue
+        seen.add((ev.loc, ev.text()))
+        rep.violated("R-SHAPE", "membership is decided in all capture coordinates", where=ev.loc, construct=ev.text(), entry=entry,
+                     config=res.config,
+                     msg=f"a {ev.d['how']} selects a subset of the receptor axis of the gamut vertices / targets before the membership test: "
+                         f"a target that differs from every reproducible capture only in a dropped coordinate is reported in-gamut")
     for ev in res.events("membership_call"):
         P, B = ev.d["P"], ev.d["B"]
         if P is None or B is None:
             continue
         pf, bf = P.flat(), B.flat()
+        if not seen:
+            rep.holds("R-SHAPE", "membership is decided in all capture coordinates", where=ev.loc, construct=ev.text(), entry=entry, config=res.config)
         if pf.unit is not None and bf.unit is not None:
             n += 1
             from ..values import ueq
@@ -142,6 +157,17 @@ def as_dim_(v):
 def vertex_set(rep, res, entry):
     """the vertex cloud is the image of ALL 2^n corners of the intensity box: product over a two-element literal set with
     repeat = number of sources, affinely mapped by (ub − lb), + lb"""
+    # every source takes part: no selection along the source axis of A / lb / ub while the vertices are built
+    seen = set()
+    for ev in res.events("axis_subset"):
+        if ev.d["axis"] != ("SRC",) or not any("get_P_from_A" in q for q in ev.path) or (ev.loc, ev.text()) in seen:
+            continue
+        if not ({"A", "lb", "ub", "self.A", "self.lb", "self.ub"} & {o.split("|")[0] for o in ev.d["base"].flat().data}):
+            continue
+        seen.add((ev.loc, ev.text()))
+        rep.violated("R-FLOW", "every source contributes to every vertex", where=ev.loc, construct=ev.text(), entry=entry, config=res.config,
+                     msg=f"a {ev.d['how']} drops sources from A / the bounds while the gamut vertices are built: the capture those sources "
+                         f"contribute at their (fixed, non-zero) intensity is missing from every vertex, the assumed gamut is displaced / too large")
     evs = [ev for ev in res.events("ext_call") if ev.d["dotted"] == "itertools.product" and ev.fn.module.name == CONVEX
            and ev.fn.name == "all_combinations_of_bounds"]
     if not evs:
@@ -237,11 +263,16 @@ def relative_forwarding(rep, an, method, kws_of, callee_names, tier, extra_field
                     bound.setdefault(fn.params[i], a)
             for p, origin in (("K", "self.K"), ("baseline", "self.baseline")):
                 v = bound.get(p)
+                va = bound.get("A")
+                adata = set(va.flat().data) if va is not None else set()
                 if rel:
                     ok = v is not None and origin in v.flat().data and not (v.known and v.const is None)
+                    if not ok and p == "K" and (v is None or (v.known and v.const is None)) and "self.K" in adata and "self.A" in adata:
+                        ok = True        # the adaptation was applied by the wrapper itself (the matrix handed over is K·A)
                     msg = f"relative=True but {p}= is " + ("absent" if v is None else f"{'None' if v.known else sorted(v.flat().data)}")
                 else:
-                    ok = v is None or (v.known and v.const is None)
+                    ok = v is None or (v.known and v.const is None) or (origin not in {o.split("|")[0] for o in v.flat().data}
+                                                                        and "self.K" not in adata)
                     msg = f"relative=False but {p}= still carries {sorted(v.flat().data) if v is not None else ''}: absolute captures are " \
                           f"tested against a gamut that includes the {'adaptation' if p == 'K' else 'baseline'}"
                 rep.check("R-FORWARD", f"relative → {fn.name}({p}=)", ok, where=ev.loc, construct=f"{fn.name}(… {p}= …) in {ev.fn.name}",
